@@ -580,9 +580,18 @@ pub fn run(ctx: &Ctx) -> Report {
     rep.sample(json!({"damage": damages.iter().take(5).map(|(d, fu, c)| json!({"file": d.file, "kind": d.kind, "follow_up": fu.iter().map(|e| e.text()).collect::<Vec<_>>(), "cmd": c})).collect::<Vec<_>>() }));
     rep.assume("a process death cannot tear a single write(2) to a regular file; crash states are those before each system call");
     rep.assume("only the main thread performs file mutations (checked: other threads' mutating calls would be missing from the crash list)");
+    // The system-call sequence of a build is not perfectly reproducible: fragment blobs are not
+    // byte-stable between runs (hash-map order inside the payload), and an identical blob that
+    // already exists is not rewritten, so the n-th call of the traced run may not exist in the
+    // re-run. Such a crash point is simply not reached; it is counted, and only a high miss rate
+    // (the trace does not describe the command at all) is a machinery failure.
     let km = kill_misses.load(std::sync::atomic::Ordering::Relaxed);
+    rep.set("crash_points_not_reached_in_rerun", km);
     if km > 0 {
-        rep.machinery(format!("{km} crash runs were not killed at the requested system call (non-deterministic trace?)"));
+        rep.notes.push(format!("{km} crash point(s) of the traced run did not occur in the re-run (non-reproducible blob writes); not judged"));
+    }
+    if !tasks.is_empty() && km as usize * 5 > tasks.len() {
+        rep.machinery(format!("{km} of {} crash runs were not killed at the requested system call (trace not reproducible)", tasks.len()));
     }
     if part.is_empty() && (tasks.is_empty() || ev == 0) {
         rep.machinery("vacuity guard: no crash point explored");
